@@ -21,7 +21,7 @@ ASSUMPTIONS = ["cluster names are drawn without ':' and '#': with those the nami
                "module and function names are Python identifiers", "versions are non-empty"]
 COMPONENTS = {"real": ["FunctionReference naming/parsing, external-reference fallback, metadata decoding, filesystem store", "process lifetimes via fork"],
               "stub": ["generated two-function program", "uuid4, clock"]}
-REACH = ["inprocess_evolutions", "names_cases", "evolution_cases", "versions_with_colon", "versions_with_hash", "default_cluster", "named_cluster",
+REACH = ["stub_lookups", "inprocess_evolutions", "names_cases", "evolution_cases", "versions_with_colon", "versions_with_hash", "default_cluster", "named_cluster",
          "external_refs_seen", "static_method_functions"]
 
 VER_ALPHA = "abzAZ019._-+=:#@"
@@ -171,8 +171,30 @@ def _ops(fn, cluster, side, emit, tag, expect_exec):
     step("call", lambda: fn(1))
     step("call-again", lambda: fn(1))
     step("memento", lambda: _memento_summary(fn.memento(1)))
+    step("stub_lookup", lambda: _stub_lookup(fn))
     step("list_mementos", lambda: sorted(_memento_summary(x)["qn"] for x in fn.list_mementos()))
     step("list_memoized_functions", lambda: sorted(r.qualified_name for r in list_memoized_functions(cluster)))
+
+
+def _stub_lookup(fn):
+    """For every external reference among the direct invocations of fn(1): ask the stub that stands for the vanished
+    function - and a modifier clone of it - for its version and for the stored entry of that very call."""
+    from twosigma.memento import FunctionReference
+    mem = fn.memento(1)
+    out = []
+    if mem is None:
+        return out
+    for inv in mem.invocation_metadata.invocations:
+        r = inv.fn_reference
+        if not r.external:
+            continue
+        stub = r.memento_fn
+        want = FunctionReference.parse_qualified_name(r.qualified_name)["version"]
+        for how, f in (("stub", stub), ("clone", stub.force_local())):
+            m2 = f.memento(*inv.args, **inv.kwargs)
+            out.append([how, f.version() == want, None if m2 is None else
+                        m2.invocation_metadata.fn_reference_with_args.fn_reference.qualified_name == r.qualified_name])
+    return out
 
 
 def _memento_summary(mem):
@@ -377,6 +399,14 @@ def execute(c):
                                     {"ref": q, "external": ext})
                                 break
                         if viol:
+                            break
+                    elif e["op"] == "stub_lookup":
+                        if e["ok"]:
+                            stats["stub_lookups"] = stats.get("stub_lookups", 0) + len(e["ok"])
+                        wrong = [z for z in e["ok"] if z[1] is not True or z[2] is not True]
+                        if wrong:
+                            bad("stored-entry-not-found-through-external-stub", dict(cl_feat, evolution=evo, how=wrong[0][0]),
+                                {"lookups": e["ok"], "callee_version_shape": c.get("callee_ver_base")})
                             break
                     elif e["op"] == "list_mementos":
                         if e["ok"] != first["list_mementos"]["ok"]:
